@@ -525,7 +525,7 @@ def c07_one(gname, n, comp, work):
 
 def run_c07(pid, tier, rep, deadline_s):
     q = tier == 'quick'
-    plan = [('stars', 4 if q else 7), ('expr', 3 if q else 5), ('recovery', 4 if q else 6), ('numbers', 3 if q else 6), ('nul', 4 if q else 7), ('stars-nows', 4 if q else 6), ('recovery-nonl', 4 if q else 5), ('ctx', 4 if q else 6), ('custom', 4 if q else 6), ('bigvalue', 0), ('stars-long', 0), ('recovery-long', 0), ('expr-long', 0)]
+    plan = [('stars', 4 if q else 7), ('expr', 3 if q else 5), ('recovery', 4 if q else 6), ('numbers', 3 if q else 6), ('nul', 4 if q else 7), ('stars-nows', 4 if q else 6), ('recovery-nonl', 4 if q else 5), ('ctx', 4 if q else 6), ('custom', 4 if q else 6), ('helpers', 4 if q else 6), ('bigvalue', 0), ('stars-long', 0), ('recovery-long', 0), ('expr-long', 0)]
     work = os.path.join(BUILD, 'run-C07-%s%s' % (tier, ('-%d' % os.getpid()) if _SCRATCH else '')); shutil.rmtree(work, ignore_errors=True); os.makedirs(work)
     jobs = [(g, n, c) for (g, n) in plan for c in ('g++', 'clang++')]
     from concurrent.futures import ThreadPoolExecutor
